@@ -261,6 +261,8 @@ namespace bloch::runtime {
         bool m_inStaticContext = false;
         bool m_inConstructor = false;
         bool m_inDestructor = false;
+        // buildClassTable is filling m_classTable: statics wait until every class is complete
+        bool m_buildingClassTable = false;
         std::atomic<bool> m_gcRequested{false};
         std::atomic<bool> m_stopGc{false};
         bool m_gcThreadStarted = false;
